@@ -68,6 +68,39 @@ def width(op):
     return 1 << natural_align(op)
 
 
+def punning_items():
+    """Accesses of DIFFERENT types to the same or overlapping bytes inside ONE function: store A, store B over (part of) it,
+    load with A's type again (and with another type).  Linear memory is bytes; which C types the generated code uses to reach
+    them must not let an optimising compiler forward or reorder across types."""
+    stores = ["i32.store", "i64.store", "f32.store", "f64.store", "i32.store16", "i64.store8", "i64.store32"]
+    ldof = {"i32.store": "i32.load", "i64.store": "i64.load", "f32.store": "f32.load", "f64.store": "f64.load", "i32.store16": "i32.load16_u",
+            "i64.store8": "i64.load8_u", "i64.store32": "i64.load32_u"}
+    cvt = {"i32": [["i32.wrap_i64"]], "i64": [], "f32": [["i32.wrap_i64"], ["f32.reinterpret_i32"]], "f64": [["f64.reinterpret_i64"]]}
+    back = {"i32": [["i64.extend_i32_u"]], "i64": [], "f32": [["i32.reinterpret_f32"], ["i64.extend_i32_u"]], "f64": [["i64.reinterpret_f64"]]}
+    funcs, exports, calls = [], [], []
+    for a in stores:
+        for b in stores:
+            if a == b:
+                continue
+            for delta in sorted({0, 2 if width(b) <= 2 or width(a) > 2 else 0}):
+                ta, tb = a.split(".")[0], b.split(".")[0]
+                la = ldof[a]
+                # f(addr, x, y): A.store addr x; B.store addr+delta y; A.load addr  (+ a second, wider look at the same bytes)
+                body = [["local.get", 0], ["local.get", 1]] + cvt[ta] + [[a, 0, 0]] + \
+                       [["local.get", 0], ["local.get", 2]] + cvt[tb] + [[b, 0, delta]] + \
+                       [["local.get", 0], [la, 0, 0]] + back[la.split(".")[0]] + \
+                       [["local.get", 0], ["i64.load", 0, 0], ["i64.const", b64(0x9E3779B97F4A7C15)], ["i64.mul"], ["i64.xor"], ["end"]]
+                funcs.append({"type": 0, "locals": [], "body": body})
+                nm = "pun_%s_%s_%d" % (a.replace(".", "_"), b.replace(".", "_"), delta)
+                exports.append({"name": nm, "kind": "func", "idx": len(funcs) - 1})
+                for x, y in ((0x1122334455667788, 0xA1B2C3D4E5F60718), (0xFFFFFFFFFFFFFFFF, 0)):
+                    calls.append({"op": "call", "inst": 1, "export": nm, "args": [arg("i32", 256 + 16 * (len(calls) % 8)), arg("i64", x), arg("i64", y)]})
+    m = {"types": [{"p": ["i32", "i64", "i64"], "r": ["i64"]}], "funcs": funcs, "exports": exports + [{"name": "memory", "kind": "memory", "idx": 0}],
+         "memory": {"min": 1, "max": 1}}
+    return [{"id": "pun%d" % (j // 60), "module": m, "script": [{"op": "instantiate", "binds": {"mem": 0, "table": 0, "globals": []}}] + calls[j:j + 60]}
+            for j in range(0, len(calls), 60)]
+
+
 def history(rng, maxpages, length):
     """A seeded history of memory operations; pages is tracked only to aim at in-bounds
     addresses (the model, not this tracker, decides what is defined)."""
@@ -250,6 +283,11 @@ def main():
             pages += stp
             sc.append({"op": "call", "inst": 1, "export": "size", "args": []})
         items.append({"id": "biggrow%d" % j, "module": big, "script": sc})
+    items += punning_items()
+    # optimising builds of both compilers (type-based alias analysis is on from -O2)
+    builds += [{"name": "gcc-O2", "cc": "gcc", "cflags": ("-O2",)}]
+    if tier == "quick":
+        builds.append({"name": "clang-O2", "cc": "clang", "cflags": ("-O2",)})
     # a C library that is as unhelpful as the standard allows (fresh bytes not zero, realloc moves, overlapping memcpy reported)
     builds.append(machine.HOSTILE_LIBC)
     st, exp = machine.replay(v, items, builds, sigfn=sig)
